@@ -740,6 +740,7 @@ def rewrite_sig(sigtext, rules_log, ret_name=None):
                 if x.kind == "punct" and x.text in ("(", "["):
                     j = match_close(toks, j) + 1; continue
                 if x.text == "<": angle += 1
+                elif x.text == "<<": angle += 2
                 elif x.text == ">": angle -= 1
                 elif x.text == ">>": angle -= 2
                 elif x.kind == "ident" and x.text == "where" and angle == 0:
